@@ -47,7 +47,38 @@ pub fn gen_case(c: &mut Choices, adversarial: bool) -> Case {
 }
 
 pub fn judge(case: &Case, findings: &crate::runner::Findings) -> Verdict {
+    judge_inner(case, findings, false).0
+}
+
+/// second stage: a different engine (node's parser, which reports the early errors swc's parser
+/// does not: misplaced `super` / `new.target`, ...) must accept the output whenever it accepts
+/// the input with its JSX expressions flattened into array literals
+fn node_stage(case: &Case, ctx: &mut Ctx, js: (String, String)) -> Verdict {
+    let (inp, out) = js;
+    let req = json!({"mode": "syntax", "modules": [{"name": "in", "code": inp}, {"name": "out", "code": out}]});
+    let reply = match ctx.node().and_then(|n| n.request(req)) {
+        Ok(r) => r,
+        Err(e) => {
+            ctx.node = None;
+            return Verdict::Infra(e);
+        }
+    };
+    let _ = case;
+    if reply["results"]["in"]["ok"].as_bool() != Some(true) {
+        return Verdict::Discard("input-has-early-error-or-unerasable-ts(node)".into());
+    }
+    if reply["results"]["out"]["ok"].as_bool() == Some(true) {
+        return Verdict::Pass;
+    }
+    Verdict::Violation {
+        kind: "output-has-early-error".into(),
+        detail: json!({"node_error": reply["results"]["out"]["error"], "printed_js": out, "input_js": inp}),
+    }
+}
+
+fn judge_inner(case: &Case, findings: &crate::runner::Findings, want_js: bool) -> (Verdict, Option<(String, String)>) {
     let lang = Lang::from_str(&case.lang);
+    let mut js = None;
     let r = with_transform(&case.source, lang, case.options.as_deref(), |t| {
         if t.panicked.is_some() {
             return Verdict::Discard("visitor-panicked(C08)".into());
@@ -82,7 +113,12 @@ pub fn judge(case: &Case, findings: &crate::runner::Findings) -> Verdict {
             }
         };
         match parses_plain(&code, lang) {
-            Ok(()) => Verdict::Pass,
+            Ok(()) => {
+                if want_js {
+                    js = t.js_for_syntax_check();
+                }
+                Verdict::Pass
+            }
             Err(e) => {
                 // guard against blaming swc's fixer: if the visitor's output printed *without*
                 // hygiene / fixer (all user parentheses still in place) re-parses, the fixer
@@ -110,12 +146,13 @@ pub fn judge(case: &Case, findings: &crate::runner::Findings) -> Verdict {
         }
     });
     let _ = findings;
-    match r {
+    let v = match r {
         Ok(v) => v,
         Err(Rejected::Options(e)) => Verdict::Infra(format!("generated options rejected: {e}")),
         Err(Rejected::Parse(_)) => Verdict::Discard("parser-rejected".into()),
         Err(Rejected::ParserPanic(_)) => Verdict::Discard("parser-panicked".into()),
-    }
+    };
+    (v, js)
 }
 
 impl Property for C07 {
@@ -144,7 +181,14 @@ impl Property for C07 {
         gen_case(c, false)
     }
     fn check(&self, case: &Case, ctx: &mut Ctx) -> Verdict {
-        judge(case, &ctx.findings)
+        let (v, js) = judge_inner(case, &ctx.findings, true);
+        match (v, js) {
+            (Verdict::Pass, Some(js)) => node_stage(case, ctx, js),
+            (v, _) => v,
+        }
+    }
+    fn uses_node(&self) -> bool {
+        true
     }
     fn builtin_cases(&self) -> Vec<Case> {
         let opt = Some("{\"optimize\":true}".to_string());
